@@ -25,7 +25,6 @@ Definition InvS (s : st) : Prop :=
   (ulk (userpc s) = true -> mlk (monpc s) = false /\ m1 (mainpc s) = false) /\
   (mlk (monpc s) = true -> m1 (mainpc s) = false) /\
   (forall o, mu s = Some o -> ulk (userpc s) || mlk (monpc s) || m1 (mainpc s) = true) /\
-  (w_done s = true -> gk s = true) /\
   (gk s = true -> no_ingroup_alive (tbl s) = true) /\
   leaders_in (tbl s) = true /\
   tbl_ok (tbl s) = true /\
@@ -69,18 +68,28 @@ Ltac invS_solve :=
   try solve [match goal with x : st |- _ => destruct (mainpc x) eqn:?; simpl in *; intuition (try congruence);
                use_all_eqs; simpl in *; intuition (try congruence) end].
 
+Section WithFacts.
+Variable F : facts.
+Hypothesis HF : facts_ok F = true.
+Local Notation step := (step F).
+Local Notation run := (run F).
+Local Notation exec1 := (exec1 F).
+Local Notation terminal := (terminal F).
+Local Notation stop_step := (stop_step F).
+
 Lemma invS_step : forall s l s', executes s = false -> no_outside_holder (prog s) = true ->
   InvS s -> step s l = Some s' -> InvS s'.
 Proof.
   intros s l s' He Hok I H. pose proof (root_tbl_ok _ Hok) as Hroot.
-  destruct I as (I1 & I2 & I3 & I4 & I5 & I6 & I7 & I8 & I9 & I10 & I11 & I12 & I13 & I14 & I15 & I16 & I17 & I18 & I19 & I20).
+  destruct I as (I1 & I2 & I3 & I4 & I5 & I6 & I8 & I9 & I10 & I11 & I12 & I13 & I14 & I15 & I16 & I17 & I18 & I19 & I20).
   unfold is_on in *.
   destruct l; simpl in H;
-    unfold main_step, user_step, mon_step, stop_step, watch_step, runwatch_step, proc_step, mu_free, is_on in H.
-  - crush_head; try (destruct (ctx_done s) eqn:?); invS_solve.
+    unfold main_step, user_step, mon_step, Model.stop_step, watch_step, runwatch_step, proc_step, mu_free, is_on, gkill in H;
+    use_facts_with (facts_all F HF) H.
+  - crush_head; try (destruct (ctx_done s) eqn:?); try (destruct (executes s) eqn:?); invS_solve.
   - crush_head; invS_solve.
   - crush_head; invS_solve.
-  - crush_head; invS_solve.
+  - crush_head; try (destruct (cancel_group F) eqn:?); invS_solve.
   - crush_head; invS_solve.
   - destruct (pstep i (tbl s)) eqn:E; [|discriminate]. inversion H; subst. invS_solve.
 Qed.
@@ -99,7 +108,7 @@ Qed.
 
 Lemma gk_facts : forall s, InvS s -> gk s = true -> leader_dead (tbl s) = true /\ pipes_free s = true.
 Proof.
-  intros s I G. destruct I as (_ & _ & _ & _ & _ & _ & _ & I8 & I9 & I10 & _).
+  intros s I G. destruct I as (_ & _ & _ & _ & _ & _ & I8 & I9 & I10 & _).
   split; [apply no_ingroup_leader_dead; auto | unfold pipes_free; apply tbl_ok_no_holder; auto].
 Qed.
 
@@ -114,7 +123,7 @@ Qed.
 Lemma terminalS_good : forall s, executes s = false -> InvS s -> terminal s -> fired s = true -> good s.
 Proof.
   intros s He I T F. pose proof I as I0.
-  destruct I as (I1 & I2 & I3 & I4 & I5 & I6 & I7 & I8 & I9 & I10 & I11 & I12 & I13 & I14 & I15 & I16 & I17 & I18 & I19 & I20).
+  destruct I as (I1 & I2 & I3 & I4 & I5 & I6 & I8 & I9 & I10 & I11 & I12 & I13 & I14 & I15 & I16 & I17 & I18 & I19 & I20).
   pose proof (T LUser) as TU. pose proof (T LMon) as TM. simpl in TU, TM.
   specialize (I18 F).
   (* Start() has returned *)
@@ -152,3 +161,5 @@ Proof.
           specialize (I6 o eq_refl). simpl in I6. discriminate. }
   unfold good, call_returned, is_on. rewrite He, Eu, R. repeat split; auto.
 Qed.
+
+End WithFacts.
